@@ -28,8 +28,8 @@ EXTENDS FtpScope, IOUtils, TLCExt
 Batch == JsonDeserialize(IOEnv.TRACE_FILE)
 NT    == Len(Batch)
 
-VARIABLES tid, l, got
-mvars == <<vars, tid, l, got>>
+VARIABLES tid, l, got, lst
+mvars == <<vars, tid, l, got, lst>>
 
 Ev  == Batch[tid].ev
 Cur == Ev[l]
@@ -40,19 +40,22 @@ MInit ==
   /\ sc = Batch[tid].hdr
   /\ ref = RefOf(Batch[tid].hdr)
   /\ tbl = <<>> /\ wk = <<>> /\ cache = {} /\ cmds = {}
-  /\ got = {}
+  /\ got = {} /\ lst = {}
 
-\* got = the paths for which a RETR was seen
+\* got = the paths for which a RETR was seen, lst = the paths for which LIST or MLSD was seen
 MNext ==
   /\ l <= Len(Ev) /\ l' = l + 1
   /\ got' = IF Cur.e = "cmd" /\ Cur.c = "RETR" THEN got \cup {Cur.p} ELSE got
+  /\ lst' = IF Cur.e = "cmd" /\ Cur.c \in {"LIST", "MLSD"} THEN lst \cup {Cur.p} ELSE lst
   /\ UNCHANGED <<tid, vars>>
 
 MSpec == MInit /\ [][MNext]_mvars
 
 \* registers: i -> furthest line; NT+i -> set of rules (indices into RuleNames) of OutOfScope commands;
-\* 2NT+i -> line of the first OutOfScope command; 3NT+i -> line of the first KindMismatch
-ASSUME \A i \in 1..NT : TLCSet(i, 0) /\ TLCSet(NT + i, {}) /\ TLCSet(2 * NT + i, 0) /\ TLCSet(3 * NT + i, 0)
+\* 2NT+i -> line of the first OutOfScope command; 3NT+i -> line of the first KindMismatch;
+\* 4NT+i -> 1 if the finished crawl asked for LESS than the reference allows (information only, never a verdict)
+ASSUME \A i \in 1..NT : /\ TLCSet(i, 0) /\ TLCSet(NT + i, {}) /\ TLCSet(2 * NT + i, 0) /\ TLCSet(3 * NT + i, 0)
+                        /\ TLCSet(4 * NT + i, 0)
 
 IsCmd == l <= Len(Ev) /\ Cur.e = "cmd"
 \* Clause RetrievedAgain (rule "Tries"): every crawl runs with --tries 1 and every file has one URL, so a second
@@ -70,16 +73,19 @@ Record ==
      ELSE TRUE
   /\ IF IsCmd /\ InScope(ref, Cur.c, Cur.p) /\ ~KindOK(ref, Cur.c, Cur.p) /\ TLCGet(3 * NT + tid) = 0
      THEN TLCSet(3 * NT + tid, l) ELSE TRUE
+  /\ IF l <= Len(Ev) /\ Cur.e = "end" /\ ((ref.mr \ got) # {} \/ (ref.ml \ lst) # {})
+     THEN TLCSet(4 * NT + tid, 1) ELSE TRUE
 
 RECURSIVE Pow2(_)
 Pow2(n) == IF n = 0 THEN 1 ELSE 2 * Pow2(n - 1)
 RECURSIVE MaskOf(_)
 MaskOf(S) == IF S = {} THEN 0 ELSE LET x == CHOOSE y \in S : TRUE IN Pow2(x - 1) + MaskOf(S \ {x})
 
-\* <<lines consumed, rule mask + 1000 * (kind mismatch seen), line of the first OutOfScope command>>
+\* <<lines consumed, rule mask + 1000 * (kind mismatch seen) + 2000 * (asked for less), line of the first violation>>
 Post == PrintT(<<"VERDICTS_BEGIN",
                  [i \in 1..NT |-> <<TLCGet(i) - 1,
-                                    MaskOf(TLCGet(NT + i)) + (IF TLCGet(3 * NT + i) > 0 THEN 1000 ELSE 0),
+                                    MaskOf(TLCGet(NT + i)) + (IF TLCGet(3 * NT + i) > 0 THEN 1000 ELSE 0)
+                                                           + (IF TLCGet(4 * NT + i) > 0 THEN 2000 ELSE 0),
                                     TLCGet(2 * NT + i)>>],
                  "VERDICTS_END">>)
 =============================================================================
